@@ -84,10 +84,8 @@ impl Ev {
                 props.iter().filter(|p| p.id == 11).count()
             ),
             SPacket::Ack { ty, reason, form, pid, .. } => format!(
-                "{} r{:#x} form{}{}",
+                "{}{} r{:#x} form{}",
                 ["", "", "", "", "PUBACK", "PUBREC", "PUBREL", "PUBCOMP"][*ty as usize],
-                reason,
-                form,
                 // an acknowledgement addressed to an operation whose future was dropped
                 if *ty != 6
                     && m.by_pid.get(pid).map(|v| v.iter().any(|&i| {
@@ -98,7 +96,9 @@ impl Ev {
                     " for-cancelled-op"
                 } else {
                     ""
-                }
+                },
+                reason,
+                form
             ),
             SPacket::Suback { .. } => "SUBACK".into(),
             SPacket::Unsuback { .. } => "UNSUBACK".into(),
@@ -170,6 +170,8 @@ pub struct Sys {
     pub params: serde_json::Value,
     /// deliver every inbound packet one byte per read
     pub bytewise_reads: bool,
+    /// cut every delivery into reads of this many bytes (all immediately available)
+    pub read_chunk: Option<usize>,
     /// after every event additionally poll every live task whose waker did not fire
     pub sweep: bool,
 }
@@ -192,6 +194,7 @@ impl Sys {
             check_stall: true,
             params: json!({}),
             bytewise_reads: false,
+            read_chunk: None,
             sweep: false,
         }
     }
@@ -383,13 +386,7 @@ impl Sys {
             }
             Ev::Deliver(p) => {
                 self.m.deliver(p.clone());
-                if self.bytewise_reads {
-                    for b in p.encode() {
-                        self.w.deliver(vec![b]);
-                    }
-                } else {
-                    self.w.deliver(p.encode());
-                }
+                self.deliver_chunked(p.encode());
             }
             Ev::DeliverBatch(v) => {
                 let mut bytes = vec![];
@@ -397,7 +394,7 @@ impl Sys {
                     bytes.extend(p.encode());
                     self.m.deliver(p);
                 }
-                self.w.deliver(bytes);
+                self.deliver_chunked(bytes);
             }
             Ev::DeliverBytewise(p) => {
                 self.m.deliver(p.clone());
@@ -452,6 +449,18 @@ impl Sys {
             }
         }
         self.sync();
+    }
+
+    fn deliver_chunked(&mut self, bytes: Vec<u8>) {
+        let k = if self.bytewise_reads { Some(1) } else { self.read_chunk };
+        match k {
+            Some(k) => {
+                for c in bytes.chunks(k.max(1)) {
+                    self.w.deliver(c.to_vec());
+                }
+            }
+            None => self.w.deliver(bytes),
+        }
     }
 
     /// release everything that is held and let the system come to rest
@@ -520,7 +529,7 @@ impl Sys {
         } else {
             vec![Prop::str(P_REASON_STRING, tag), Prop::user("op", tag)]
         };
-        let form = if tag.is_empty() && reason == 0 { 2 } else { 4 };
+        let form = if !tag.is_empty() { 4 } else if reason == 0 { 2 } else { 3 };
         match (&o.spec, &o.st) {
             (OpSpec::Publish(p), St::AwaitAck) if p.qos() == 1 => Some(SPacket::Ack {
                 ty: 4,
